@@ -257,6 +257,37 @@ theorem split_places_new_node_next (n : Nat) (new nd : Node) (pre post : List No
 
 example : splitPlace 2 (.mk 9 .text ['b'] [] []) [.mk 1 .text [] [] [], .mk 2 .text ['a'] [] [], .mk 3 .comment [] [] []]
     = [.mk 1 .text [] [] [], .mk 2 .text ['a'] [] [], .mk 9 .text ['b'] [] [], .mk 3 .comment [] [] []] := by rfl
+/-- splitText in the DOM model, success: the receiver is a Text or CDATA node, the offset is within its data,
+    the answer is a fresh node (the next identity), and the two halves concatenate to the data with `off` characters
+    in the first -/
+theorem splitText_ok_shape (s s' : St) (n off k : Nat) (h : Dom.step s (.splitText n off) = (s', .node k)) :
+    ∃ nn l r, s.find n = some nn ∧ (nn.kind = .text ∨ nn.kind = .cdata) ∧
+      CharData.splitText nn.data off = some (l, r) ∧ l ++ r = nn.data ∧ l.length = off ∧
+      k = s.next ∧ s'.next = s.next + 1 ∧ s'.handles = s.handles ++ [some s.next] := by
+  simp only [Dom.step] at h
+  cases hf : s.find n with
+  | none => simp only [hf] at h; cases h
+  | some nn =>
+    simp only [hf] at h
+    cases hk : nn.kind <;> simp only [hk] at h <;>
+      first
+      | (exfalso; simp at h; done)
+      | (cases hsp : CharData.splitText nn.data off with
+         | none => simp only [hsp] at h; exfalso; simp at h
+         | some lr =>
+           obtain ⟨l, r⟩ := lr
+           simp only [hsp, Prod.mk.injEq, Res.node.injEq] at h
+           obtain ⟨rfl, rfl⟩ := h
+           exact ⟨nn, l, r, rfl, by simp [hk], hsp, (split_concat _ _ _ _ hsp).1, (split_concat _ _ _ _ hsp).2, rfl, rfl, rfl⟩)
+
+/-- splitText in the DOM model, offset beyond the data: INDEX_SIZE_ERR and no tree changes -/
+theorem splitText_index_size (s : St) (n off : Nat) (nn : Node) (hf : s.find n = some nn)
+    (hk : nn.kind = .text ∨ nn.kind = .cdata) (ho : nn.data.length < off) :
+    (Dom.step s (.splitText n off)).2 = .err .indexSize ∧
+    (Dom.step s (.splitText n off)).1.doc = s.doc ∧ (Dom.step s (.splitText n off)).1.detached = s.detached := by
+  have hsp : CharData.splitText nn.data off = none := by simp [CharData.splitText, ho]
+  simp only [Dom.step, hf]
+  rcases hk with hk | hk <;> simp [hk, hsp]
 end SplitPlace
 
 end XmlRs.C16
